@@ -40,6 +40,13 @@ def run(chk):
                         texts.append(e2[0])
                         base.append(c)
                         kinds.append(e[1] + "+" + e2[1])
+    # sizes: the same (edited) scripts with many more declared-but-unused variables (so many more warnings)
+    for i in range(0, len(texts), 23):
+        t = gen_check.pad_vars(texts[i], rng)
+        if t:
+            texts.append(t)
+            base.append(base[i])
+            kinds.append(kinds[i] + "+padvars")
     gos, models = A.analyze_both([{"script": t} for t in texts])
     # execute every script that parses
     ecases, eidx = [], []
